@@ -108,22 +108,34 @@ def rule_fit_map(F, ev, R, config, rule="R-FIT-MAP"):
     R.add(rule, config, b.key, "problem=final-state-unchanged", okp, "" if okp else "returned problem is `%s`, not the optimizer's final problem" % short(p)[:200], b.j["span"])
     okr = fs.get(rf) == ("field", m, "1")
     R.add(rule, config, b.key, "report=optimizer-report", okr, "" if okr else "returned report is `%s`" % short(fs.get(rf))[:120], b.j["span"])
-    # decision: Ok ⇔ was_successful(report.termination)
-    g = Guards(ev, b, env)
+    # decision: Ok ⇔ was_successful(report.termination) — on the body with private helpers spliced in (the branch may sit
+    # in a helper such as `FitResult::into_result(self) -> Result<Self, Self>`)
+    from rules_panic import nosite
+    bm = merged(F, b)
+    envm = Env(bm)
+    g = Guards(ev, bm, envm)
     want = None
+    term_want = nosite(("field", ("field", m, "1"), "termination"))
     for sw in g.switches:
         t = sw["term"]
         neg = False
         while t[0] == "un" and t[1] == "Not":
             t, neg = t[2], not neg
-        if t[0] == "call" and t[1].endswith("TerminationReason::was_successful") and t[3][0] == ("field", ("field", m, "1"), "termination"):
+        if t[0] == "call" and t[1].endswith("TerminationReason::was_successful") and nosite(t[3][0]) == term_want:
             want = (sw, neg)
     if want is None:
         R.bad(rule, config, b.key, "Ok-iff-successful", "no branch on the optimizer's termination reason", b.j["span"])
         return
     sw, neg = want
-    ok_sites = [bi for bi, si, s in b.stmts() if s["k"] == "assign" and s["place"]["l"] == 0 and s["rv"]["k"] == "agg" and s["rv"].get("variant") == "Ok"]
-    err_sites = [bi for bi, si, s in b.stmts() if s["k"] == "assign" and s["place"]["l"] == 0 and s["rv"]["k"] == "agg" and s["rv"].get("variant") == "Err"]
+    b = bm
+
+    def result_site(s, variant):
+        if s["k"] != "assign" or s["rv"]["k"] != "agg" or s["rv"].get("variant") != variant or s["place"]["proj"]:
+            return False
+        ty = b.local_ty(s["place"]["l"]) or ""
+        return s["place"]["l"] == 0 or (ty.startswith("std::result::Result<") and ADT_FITRESULT in ty)
+    ok_sites = [bi for bi, si, s in b.stmts() if result_site(s, "Ok")]
+    err_sites = [bi for bi, si, s in b.stmts() if result_site(s, "Err")]
     t_edges = g.bool_edges(sw, not neg)
     f_edges = g.bool_edges(sw, neg)
     ok1 = all(g.holds_on_all_paths_to(x, [t_edges]) for x in ok_sites) and bool(t_edges)
@@ -800,12 +812,24 @@ def rule_band(F, ev, R, config, rule="R-BAND"):
             if f[0] == "and":
                 st.extend(f[1])
         return False
-    isconst = lambda x, nm: x[0] == "constitem" and x[1].endswith("::" + nm)
+    # the tests may be made on p itself (against the trait's ZERO / ONE) or on its exact widening `into_f64(p)` (against the
+    # literals 0.0 / 1.0): the conversion is the identity or the f32→f64 cast (checked below), which preserves order,
+    # finiteness and NaN
+    p64 = ("call", "statistics::numeric_traits::CastF64::into_f64", None, (p,), None)
+    isp = lambda x: x == p or (x[0] == "call" and x[1].endswith("CastF64::into_f64") and x[3] == (p,))
+    isconst = lambda x, nm, val, of: (x[0] == "constitem" and x[1].endswith("::" + nm) and of == p) or \
+        (x[0] == "const" and x[1] == "f64" and x[2] == val and of != p)
     have = {
-        "finite": conj(lambda f: f[0] == "atom" and f[1][0] == "call" and f[1][1].endswith("::is_finite") and f[1][3] == (p,)),
-        ">0": conj(lambda f: f[0] == "rel" and f[1] == "Lt" and isconst(f[2], "ZERO") and f[3] == p),
-        "<1": conj(lambda f: f[0] == "rel" and f[1] == "Lt" and f[2] == p and isconst(f[3], "ONE")),
+        "finite": conj(lambda f: f[0] == "atom" and f[1][0] == "call" and f[1][1].endswith("::is_finite") and len(f[1][3]) == 1 and isp(f[1][3][0])),
+        ">0": conj(lambda f: f[0] == "rel" and f[1] == "Lt" and isp(f[3]) and isconst(f[2], "ZERO", 0.0, f[3])),
+        "<1": conj(lambda f: f[0] == "rel" and f[1] == "Lt" and isp(f[2]) and isconst(f[3], "ONE", 1.0, f[2])),
     }
+    for cb in F.bodies.values():
+        if cb.kind != "Closure" and cb.name == "into_f64" and "CastF64" in cb.j.get("impl", {}).get("trait", ""):
+            v = evb.ret_val(Env(cb))
+            me1 = ("param", cb.key, 1)
+            okc = v == me1 or (v[0] == "cast" and v[1] == "FloatToFloat" and v[2] == me1 and v[3] == "f64")
+            R.add(rule, config, cb.key, "into_f64-is-the-exact-widening", okc, "" if okc else "into_f64 computes `%s`" % short(v)[:80], cb.j["span"])
     for k, v in have.items():
         R.add(rule, config, b.key, "continues-only-if:p " + k, v, "" if v else "the quantile is computed without requiring probability %s" % k, pt.get("span"))
     # ZERO / ONE constants of the cast trait are 0 and 1
